@@ -43,8 +43,15 @@ pub fn search_on_sorted_u64s<
     // This is the size of the window where doing a sequential read from this point is assumed to be equivalent in speed
     // to a seek, then do a read.  If the next point is within READ_WINDOW_SIZE entries of the current point, then
     // just do a continuous read.
+    #[cfg(not(any(kani, xet_verif)))]
     const READ_WINDOW_SIZE: u64 = 256;
+    #[cfg(not(any(kani, xet_verif)))]
     const EXPECTED_MAX_NUM_DUPLICATES: u64 = 4;
+    // Verification builds shrink the window so that tables of a handful of entries reach the interpolation branch.
+    #[cfg(any(kani, xet_verif))]
+    const READ_WINDOW_SIZE: u64 = 2;
+    #[cfg(any(kani, xet_verif))]
+    const EXPECTED_MAX_NUM_DUPLICATES: u64 = 1;
 
     let pair_size: u64 = (size_of::<Value>() + size_of::<u64>()) as u64;
 
